@@ -21,7 +21,7 @@ def _ks(at, k, rng):
 
 
 def realise(at, k=3, spacing="uniform", rng=None, relabel=False, shifts=False, flips=None, edge_dirs=False,
-            cell_order=False, id_base=0):
+            cell_order=False, id_base=0, jitter=0.0):
     """flips: None | 'random' | iterable of cell ids stored clockwise (reversed) | 'all'"""
     rng = rng if rng is not None else np.random.default_rng(0)
     ks = _ks(at, k, rng)
@@ -47,7 +47,11 @@ def realise(at, k=3, spacing="uniform", rng=None, relabel=False, shifts=False, f
         ids = []
         for s in ss:
             ids.append(len(pos))
-            pos.append(at.arc_point(key, float(s)))
+            z = at.arc_point(key, float(s))
+            if jitter:
+                # segmentation-like noise on the interior points (a fraction of the point spacing)
+                z = z + jitter * at.arc_length(key) / (n + 1) * complex(*rng.normal(0, 1, 2))
+            pos.append(z)
         chain[key] = [jidx[a]] + ids + [jidx[b]]
     nv = len(pos)
     # ---- labels
